@@ -38,7 +38,7 @@ class C18(TraceProp):
                     col['type'] = 'int'
         spec['shape'] = 'articles'
         n = rng.choice((10, 18, 28)) if tier == 'quick' else rng.choice((15, 30, 50))
-        base = proggen.random_program(rng, spec, n, weights={'rollback': 1, 'commit': 6, 'flush': 4, 'del': 2, 'set': 9})
+        base = proggen.random_program(rng, spec, n, weights={'rollback': 1, 'commit': 6, 'flush': 4, 'del': 2, 'set': 9, 'sp_begin': 2, 'sp_rollback': 2, 'sp_commit': 1})
         prog = []
         verb = 0
         for st in base:
@@ -58,6 +58,27 @@ class C18(TraceProp):
                 prog.append(['commit'])
         prog.append(['commit'])
         return {'spec': spec, 'autoflush': False, 'program': prog}
+
+    def gen(self, rng, tier):
+        for c in TraceProp.gen(self, rng, tier):
+            yield c
+        # an entity versioned by an earlier flush of the transaction, a savepoint rolled back in between (the unit of
+        # work forgets its cached version objects), then an activity about the entity
+        for _ in range(10 if tier == 'quick' else 200):
+            spec = envs.shape_articles({'strategy': rng.choice(['validity', 'subquery'])}, plugins=['activity'])
+            for c in spec['classes']:
+                for col in c['columns']:
+                    if col.get('pk'):
+                        col['type'] = 'int'
+            spec['shape'] = 'articles'
+            prog = [['add', 'Article', [1], {'name': 1}], ['add', 'Article', [2], {'name': 1}], ['commit'],
+                    ['set', 'Article', [1], 'name', 2], ['flush'], ['sp_begin']]
+            if rng.random() < 0.5:
+                prog += [['set', 'Article', [2], 'name', 3], ['flush']]
+            prog += [rng.choice([['sp_rollback'], ['sp_rollback'], ['sp_commit']]),
+                     ['activity', 1, 'Article', [1], 'Article', [2]], ['flush'], ['commit'],
+                     ['set', 'Article', [1], 'name', 4], ['commit']]
+            yield {'spec': spec, 'autoflush': False, 'program': prog, 'family': 'activity_after_savepoint'}
 
     def lean_lines(self, case, obs):
         lines = TraceProp.lean_lines(self, case, obs)
